@@ -417,6 +417,11 @@ func (e *Exec) builtin(s *State, c *ssa.Call, b *ssa.Builtin, args []Val) []Out 
 		// Always reallocates: sound for the code under contract, which never
 		// relies on two slices sharing a backing array after append.
 		return ret(e.mkSlice(s, append(append([]Val{}, base...), more...)))
+	case "ssa:wrapnilchk":
+		if r, ok := args[0].(Ref); ok && r.isNil() {
+			return []Out{{St: s, Panic: "nil receiver (wrapnilchk) at " + e.pos(c)}}
+		}
+		return ret(args[0])
 	case "copy":
 		dst, ok1 := args[0].(SliceV)
 		src, ok2 := args[1].(SliceV)
@@ -504,7 +509,46 @@ func (e *Exec) applyContract(s *State, c *ssa.Call, fn *ssa.Function, con *Contr
 	}
 	// 3. results
 	sig := fn.Signature
-	for k := 0; k < sig.Results().Len(); k++ {
+	joint := false
+	for _, sc := range con.clauses("shape") {
+		eq := strings.Index(sc.Raw, "=")
+		if eq < 0 || strings.TrimSpace(sc.Raw[:eq]) != "results" {
+			continue
+		}
+		// `shape results = (alt, alt) | (alt, alt)`: joint result alternatives
+		joint = true
+		var next []alt
+		for _, a := range alts {
+			for _, tup := range strings.Split(sc.Raw[eq+1:], "|") {
+				tup = strings.TrimSpace(tup)
+				tup = strings.TrimSuffix(strings.TrimPrefix(tup, "("), ")")
+				parts := strings.Split(tup, ";")
+				if len(parts) != sig.Results().Len() {
+					unsupported("%s: result tuple arity", sc.Pos)
+				}
+				st2 := a.st.clone()
+				var rets []Val
+				for k, p := range parts {
+					p = strings.TrimSpace(p)
+					rt := sig.Results().At(k).Type()
+					switch {
+					case p == "nil":
+						rets = append(rets, zeroVal(rt))
+					case p == "error":
+						rets = append(rets, mkErr("from "+con.target()))
+					case strings.Contains(p, ":"):
+						kv := strings.SplitN(p, ":", 2)
+						rets = append(rets, e.w.codegenType(st2, kv[0], kv[1]))
+					default:
+						unsupported("%s: result alternative %q", sc.Pos, p)
+					}
+				}
+				next = append(next, alt{st: st2, rets: rets})
+			}
+		}
+		alts = next
+	}
+	for k := 0; k < sig.Results().Len() && !joint; k++ {
 		rt := sig.Results().At(k).Type()
 		var next []alt
 		for _, a := range alts {
@@ -565,12 +609,19 @@ func (e *Exec) applyContract(s *State, c *ssa.Call, fn *ssa.Function, con *Contr
 			continue
 		}
 		a.st.Trace = append(a.st.Trace, "call "+con.Func+" replaced by its contract")
+		a.st.Ghost["callret:"+con.target()] = Tuple(a.rets)
 		outs = append(outs, Out{St: a.st, Rets: a.rets})
 	}
 	if len(outs) == 0 {
 		unsupported("contract of %s admits no result shape at %s", con.Func, e.pos(c))
 	}
 	return outs
+}
+
+// pureAtomName names the result of a pure string function applied to texts.
+func pureAtomName(target string, parts []string) string {
+	name := strings.NewReplacer("(*", "", "(", "", ")", "").Replace(target)
+	return name + "(" + strings.ReplaceAll(strings.ReplaceAll(strings.Join(parts, ","), "⟦", ""), "⟧", "") + ")"
 }
 
 func bindResults(env map[string]Val, rets []Val) {
@@ -674,8 +725,7 @@ func (e *Exec) resultCandidates(s *State, rt types.Type, prefix string, args []V
 						parts = append(parts, t.String())
 					}
 				}
-				name := strings.TrimSuffix(strings.TrimPrefix(con.Func, "("), ")")
-				return []Val{atom(name + "(" + strings.ReplaceAll(strings.ReplaceAll(strings.Join(parts, ","), "⟦", ""), "⟧", "") + ")")}
+				return []Val{atom(pureAtomName(con.target(), parts))}
 			}
 		}
 		return []Val{e.havocByType(s, rt, prefix)}
@@ -762,6 +812,10 @@ func (c *EvalCtx) evalRef(n *Node) (Ref, bool) {
 			return Ref{}, false
 		}
 		return r.sub(i), true
+	case "ident":
+		if m, ok := c.eval(n).(MapV); ok && m.Cell != 0 {
+			return Ref{Cell: m.Cell}, true
+		}
 	}
 	return Ref{}, false
 }
